@@ -251,6 +251,11 @@ class Bundle:
         # Check it's a valid attribute-type
         assert_bundle_attr(self, val)
 
+        # An attribute has a single name. Like `add`, refuse to bind one we already hold to a second.
+        if val.name != key and self.namespace.get(val.name, None) is val:
+            msg = f"{val} is already attribute `{val.name}` of Bundle {self.name}, and cannot also be its `{key}`"
+            raise RuntimeError(msg)
+
         # Checks out! Name `val` and add it to our type-based containers.
         val.name = key
         _add(bundle=self, val=val)
